@@ -46,6 +46,9 @@ pub mod h_text {
 pub mod h_iter2 {
     include!(concat!(env!("CHUMSKY_VERIF_DIR"), "/h_iter2.rs"));
 }
+pub mod h_clone {
+    include!(concat!(env!("CHUMSKY_VERIF_DIR"), "/h_clone.rs"));
+}
 pub mod h_err {
     include!(concat!(env!("CHUMSKY_VERIF_DIR"), "/h_err.rs"));
 }
@@ -66,5 +69,6 @@ pub fn register_all(r: &mut Vec<(&'static str, fn())>) {
     h_inputref::register(r);
     h_top2::register(r);
     h_err::register(r);
+    h_clone::register(r);
     h_iter2::register(r);
 }
